@@ -183,7 +183,9 @@ class Tr:
                 ok = s["res"] in ("idle", "batch")
                 # the model's page loop has fuel count-fromIndex+1 (PSpin = more page requests than that)
                 if s["cnt"] is not None and s["nreq"] > max(s["cnt"] - s["from"], 0) + 1:
-                    if s["res"] in ("batch", "spin"):
+                    if self.ignore_reobs_fwd is False and s["res"] == "batch":
+                        self.skip = "poll beyond its request bound (judged by C09)"
+                    elif s["res"] in ("batch", "spin"):
                         fl, ok = 2, False
                     else:
                         self.skip = "poll beyond the request bound that ended with " + s["res"]
